@@ -36,6 +36,12 @@ def gen(seed, index):
             pool = [x for x in pool if x < m] or pool
         x = rng.choice(pool)
         r = rng.random()
+        if len(t) > 60 and r < 0.6:
+            # long scores: a time one to five ticks after a late boundary (large absolute times, tiny offsets)
+            late = sorted(b for b in g.boundaries(t) if d // 2 <= b < d)
+            if late:
+                x = rng.choice(late) + rng.choice([1, 1, 2, 5])
+                r = 1.0
         if r < 0.05:
             x = rng.choice([-1, -G.unit])
         elif r < 0.12:
